@@ -197,6 +197,10 @@ def link_discipline(trace, limit=3):
         elif e[0] == "G":
             pending = b""
         elif e[0] == "P" and e[1] in table_pages and len(e[2]) >= 16:
+            # only an initialised table-page image carries a link: redo's NewTablePage branch first writes an all-zero placeholder for
+            # a page that never reached the file (its "next" field reads 0) and initialises it afterwards
+            if int.from_bytes(e[2][0:4], "little", signed=True) != e[1] or not any(e[2][4:24]):
+                continue
             nxt = int.from_bytes(e[2][12:16], "little", signed=True)
             if nxt >= 0 and nxt not in created and len(viol) < limit:
                 viol.append("I/O event %d writes table page %d (page LSN %d) whose header links to successor page %d, but no NewTablePage record of page %d has reached the log file yet: "
